@@ -403,7 +403,13 @@ impl<'a> DataRowIteratorTestData<'a> {
                     EntryIndex::Entry {
                         entry_index,
                         signal_index: _,
-                    } => row_result.entries[*entry_index] = DataEntry::X,
+                    } => {
+                        // A column can feed an input named `<b>_out` and be the expected
+                        // column of a bidirectional `<b>` at once; it must stay an input value
+                        if !self.entry_is_input(*entry_index) {
+                            row_result.entries[*entry_index] = DataEntry::X
+                        }
+                    }
                     EntryIndex::Default { signal_index: _ } => continue,
                 }
             }
